@@ -151,6 +151,8 @@ Proof. intros Ha Hb. apply ext_flag_internal in Ha, Hb. congruence. Qed.
 Lemma external_class a b : e_kind a <> Internal -> e_kind b <> Internal -> ext_flag a = ext_flag b.
 Proof. intros Ha Hb. apply ext_flag_external in Ha, Hb. congruence. Qed.
 
+Definition opt_list {A} (o : option A) : list A := match o with Some a => [a] | None => [] end.
+
 Section C05.
   Variable ctx : Type.
   Variable X : Type.
@@ -392,11 +394,11 @@ Section C05.
     consume_event s = (s', r) ->
     exists c, r = inl (option_map snd c) /\ option_map snd c = select_event (m_i s) /\
               pop (i_time (m_i s)) (i_iq (m_i s)) (i_eq (m_i s)) c (i_iq (m_i s')) (i_eq (m_i s')) /\
-              i_time (m_i s') = i_time (m_i s).
+              i_time (m_i s') = i_time (m_i s) /\ m_tr s' = m_tr s.
   Proof.
-    destruct (C05_consume s) as (s1 & E & _ & _ & H). rewrite E. intros H0. inversion H0; subst.
+    destruct (C05_consume s) as (s1 & E & _ & Tr & H). rewrite E. intros H0. inversion H0; subst.
     clear H0 E. destruct (select_event (m_i s)) as [e|].
-    - destruct H as [(t & q & Ei & L & ->)|(t & q & D & Ee & L & ->)].
+    - destruct H as [(t & q & Ei & L & Hs)|(t & q & D & Ee & L & Hs)]; rewrite Hs.
       + exists (Some (t, e)). simpl. repeat split; auto. eapply pop_int; eauto.
       + exists (Some (t, e)). simpl. repeat split; auto. eapply pop_ext; eauto.
     - subst. exists None. simpl. repeat split; auto. constructor.
@@ -521,9 +523,6 @@ Section C05.
     intros H K. rewrite <- (app_nil_r l). eapply step_rel_qins; [exact H|]. apply qins_nil, K.
   Qed.
 
-  Lemma step_rel_qevol c l a b d : step_rel c l a b -> qevol b d -> exists l', step_rel c l' a d.
-  Proof. intros H (l' & K). exists (l ++ l'). eapply step_rel_qins; eauto. Qed.
-
   Lemma step_rel_Q_inv c l i i' : Q_inv i -> step_rel c l i i' -> Q_inv i'.
   Proof.
     intros (Si & Se & Ki & Ke) (iq1 & eq1 & P & E1 & E2 & E3).
@@ -539,6 +538,104 @@ Section C05.
     destruct (ins_all_inv (i_time i) (internals l) iq1 (internals_Forall l) S1 K1) as [A B]. auto.
   Qed.
 
+  (* ---- ... and on the trace: the 'event consumed' meta events handed to the listeners ---- *)
+  Definition consumed_obs (tr : list (obs ctx)) : list event :=
+    flat_map (fun o => match o with ObMeta (MConsumed e) => [e] | _ => [] end) tr.
+
+  (* the trace grew by `new`, which contains 'event consumed' for exactly oe *)
+  Definition tr_rel (oe : option event) (s s' : mst) : Prop :=
+    exists new, m_tr s' = new ++ m_tr s /\ consumed_obs new = opt_list oe.
+
+  Definition quiet_tr (t t' : list (obs ctx)) : Prop :=
+    exists new, t' = new ++ t /\ consumed_obs new = [].
+  Notation quiet := (liftT ctx X quiet_tr).
+
+  Lemma consumed_obs_app a b : consumed_obs (a ++ b) = consumed_obs a ++ consumed_obs b.
+  Proof. apply flat_map_app. Qed.
+
+  Lemma quiet_refl t : quiet_tr t t.
+  Proof. exists []. auto. Qed.
+
+  Lemma quiet_trans a b c : quiet_tr a b -> quiet_tr b c -> quiet_tr a c.
+  Proof.
+    intros (n1 & -> & C1) (n2 & -> & C2). exists (n2 ++ n1). rewrite app_assoc. split; auto.
+    rewrite consumed_obs_app, C1, C2. reflexivity.
+  Qed.
+
+  Lemma quiet_frame : mframe ctx X emit quiet.
+  Proof.
+    apply mframe_trace.
+    - apply quiet_refl.
+    - apply quiet_trans.
+    - intros t o Ho. exists [o]. split; [reflexivity|]. destruct o; try discriminate; reflexivity.
+    - intros t m Hm. exists [ObMeta m]. split; [reflexivity|]. destruct m; try discriminate; reflexivity.
+  Qed.
+
+  Lemma tr_rel_l oe a b c : quiet a b -> tr_rel oe b c -> tr_rel oe a c.
+  Proof.
+    intros (n1 & E1 & C1) (n2 & E2 & C2). exists (n2 ++ n1). rewrite E2, E1, app_assoc.
+    split; auto. rewrite consumed_obs_app, C1, C2, app_nil_r. reflexivity.
+  Qed.
+
+  Lemma tr_rel_r oe a b c : tr_rel oe a b -> quiet b c -> tr_rel oe a c.
+  Proof.
+    intros (n1 & E1 & C1) (n2 & E2 & C2). exists (n2 ++ n1). rewrite E2, E1, app_assoc.
+    split; auto. rewrite consumed_obs_app, C1, C2. reflexivity.
+  Qed.
+
+  (* both together *)
+  Notation sq := (rconj ctx X (lift ctx X same_queues) quiet).
+
+  Lemma sq_frame : mframe ctx X emit sq.
+  Proof. apply mframe_conj; [apply mframe_lift, same_queues_frame|apply quiet_frame]. Qed.
+
+  Definition step_relM (consumed : option entry) (sent : list event) (s s' : mst) : Prop :=
+    step_rel consumed sent (m_i s) (m_i s') /\ tr_rel (option_map snd consumed) s s'.
+
+  Lemma step_relM_same s s' : sq s s' -> step_relM None [] s s'.
+  Proof. intros [A B]. split; [apply step_rel_same, A|exact B]. Qed.
+
+  Lemma step_relM_l c l a b d : sq a b -> step_relM c l b d -> step_relM c l a d.
+  Proof.
+    intros [A B] [C D]. split; [eapply step_rel_same_l; eauto|eapply tr_rel_l; eauto].
+  Qed.
+
+  Lemma step_relM_r c l a b d : step_relM c l a b -> sq b d -> step_relM c l a d.
+  Proof.
+    intros [C D] [A B]. split; [eapply step_rel_same_r; eauto|eapply tr_rel_r; eauto].
+  Qed.
+
+  Lemma step_relM_qins c l l' a b d :
+    step_relM c l a b -> qins l' (m_i b) (m_i d) -> quiet b d -> step_relM c (l ++ l') a d.
+  Proof.
+    intros [C D] A B. split; [eapply step_rel_qins; eauto|eapply tr_rel_r; eauto].
+  Qed.
+
+  Lemma sq_refl s : sq s s.
+  Proof. apply (mf_refl _ _ _ _ sq_frame). Qed.
+
+  Lemma raise_meta_sq m s s' r :
+    (forall e, m <> MConsumed e) -> raise_meta m s = (s', r) -> sq s s'.
+  Proof.
+    intros Hm H. apply raise_meta_inv in H. destruct H as (_ & Hi & Ht & _). split.
+    - unfold lift. rewrite Hi. apply (cf_refl _ _ (same_queues_frame ctx)).
+    - exists [ObMeta m]. split; [exact Ht|]. destruct m; try reflexivity. exfalso. eapply Hm; eauto.
+  Qed.
+
+  Lemma compute_steps_sq s s' r : compute_steps s = (s', r) -> sq s s'.
+  Proof. apply (mf_compute_steps _ _ _ _ _ _ sq_frame). Qed.
+
+  Lemma finish_part_sq macro s s' r : finish_part macro s = (s', r) -> sq s s'.
+  Proof.
+    apply (mf_finish_part _ _ _ _ _ _ sq_frame). intros s0.
+    eapply raise_meta_sq; [intros ?; discriminate|]. apply surjective_pairing.
+  Qed.
+
+  Lemma run_steps_quiet fuel steps s s' r : run_steps fuel steps s = (s', r) -> quiet s s'.
+  Proof.
+    apply (mf_run_steps _ _ _ _ _ _ _ quiet_frame). apply msend_trace, quiet_refl.
+  Qed.
+
   Lemma macro_event_all_none steps :
     Forall (fun st => ms_event st = None) steps -> macro_event steps = None.
   Proof. induction 1 as [|a l Ha _ IH]; simpl; auto. rewrite Ha. exact IH. Qed.
@@ -549,7 +646,7 @@ Section C05.
     (ev = None \/ ev = select_event (m_i s)) ->
     macro_part fuel steps s = (s', r) ->
     exists consumed sent,
-      step_rel consumed sent (m_i s) (m_i s') /\
+      step_relM consumed sent s s' /\
       match r with
       | inl (Some (t, ex)) => t = i_time (m_i s) /\ ex <> [] /\
                               option_map snd consumed = macro_event ex /\
@@ -560,35 +657,38 @@ Section C05.
   Proof.
     intros Hev Hsel. unfold FrameLib.macro_part. destruct steps as [|first rest].
     - intros H. inversion H; subst. exists None, []. split; [|auto].
-      apply step_rel_same. apply (cf_refl _ _ (same_queues_frame ctx)).
+      apply step_relM_same, sq_refl.
     - intros H. apply bind_inv in H.
       assert (Hfirst : ms_event first = ev) by (inversion Hev; assumption).
       (* the consumption part *)
       assert (Hc : forall s1 r1, consume_part first s = (s1, r1) ->
-                exists c, step_rel c [] (m_i s) (m_i s1) /\
-                          (r1 = inl tt -> option_map snd c = ev)).
+                exists c, step_relM c [] s s1 /\ (r1 = inl tt -> option_map snd c = ev)).
       { intros s1 r1. unfold FrameLib.consume_part. rewrite Hfirst. destruct ev as [e0|].
         - destruct Hsel as [Hsel|Hsel]; [discriminate|].
           intros H1. apply bind_inv in H1.
           destruct H1 as [(x & H1 & _)|(oe & s2 & H1 & H2)].
           + apply consume_event_pop in H1. destruct H1 as (c & Hr & _). discriminate.
-          + apply consume_event_pop in H1. destruct H1 as (c & Hr & Hse & P & T).
+          + apply consume_event_pop in H1. destruct H1 as (c & Hr & Hse & P & T & Tr).
             inversion Hr; subst oe. rewrite Hse, <- Hsel in H2.
-            apply raise_meta_inv in H2. destruct H2 as (_ & Hi & _).
-            exists c. rewrite Hi. split; [|intros _; congruence].
-            eexists _, _. split; [exact P|]. simpl. auto.
+            apply raise_meta_inv in H2. destruct H2 as (_ & Hi & Ht & _).
+            exists c. split; [|intros _; congruence]. split.
+            * rewrite Hi. eexists _, _. split; [exact P|]. simpl. auto.
+            * exists [ObMeta (MConsumed e0)]. rewrite Ht, Tr. split; [reflexivity|].
+              rewrite Hse, <- Hsel. reflexivity.
         - intros H1. inversion H1; subst. exists None. split; [|reflexivity].
-          apply step_rel_same. apply (cf_refl _ _ (same_queues_frame ctx)). }
+          apply step_relM_same, sq_refl. }
       destruct H as [(x & H & ->)|([] & s1 & H1 & H2)].
       + destruct (Hc _ _ H) as (c & R & _). exists c, []. split; [exact R|exact I].
       + destruct (Hc _ _ H1) as (c & R & Hce). specialize (Hce eq_refl).
         apply bind_inv in H2. destruct H2 as [(x & H & ->)|(ex & s2 & H2 & H3)].
-        * apply run_steps_qins in H. destruct (step_rel_qevol _ _ _ _ _ R H) as (l' & R').
-          exists c, l'. split; [exact R'|exact I].
-        * apply run_steps_qins in H2. destruct H2 as (Q & Me & Ne).
-          inversion H3; subst. exists c, (concat (map ms_sent ex)).
-          split; [exact (step_rel_qins _ _ _ _ _ _ R Q)|].
-          destruct Q as (_ & _ & T2). destruct R as (_ & _ & _ & _ & _ & T1).
+        * pose proof (run_steps_quiet _ _ _ _ _ H) as Qt.
+          apply run_steps_qins in H. destruct H as (l' & Q).
+          exists c, ([] ++ l'). split; [exact (step_relM_qins _ _ _ _ _ _ R Q Qt)|exact I].
+        * pose proof (run_steps_quiet _ _ _ _ _ H2) as Qt.
+          apply run_steps_qins in H2. destruct H2 as (Q & Me & Ne).
+          inversion H3; subst. exists c, ([] ++ concat (map ms_sent ex)).
+          split; [exact (step_relM_qins _ _ _ _ _ _ R Q Qt)|].
+          destruct Q as (_ & _ & T2). destruct R as [(_ & _ & _ & _ & _ & T1) _].
           split; [congruence|]. split; [apply Ne; discriminate|]. split; [|reflexivity].
           rewrite Hce, Me. simpl. destruct (ms_event first) as [e0|] eqn:F; [reflexivity|].
           symmetry. apply macro_event_all_none. inversion Hev; assumption.
@@ -616,38 +716,49 @@ Section C05.
   Lemma tail_spec fuel now s s' r :
     execute_once_tail fuel now s = (s', r) ->
     exists consumed sent,
-      step_rel consumed sent (m_i s) (m_i s') /\ outcome_ok (i_time (m_i s)) r consumed sent.
+      step_relM consumed sent s s' /\ outcome_ok (i_time (m_i s)) r consumed sent.
   Proof.
     unfold FrameLib.execute_once_tail. intros H.
-    pose proof (same_queues_frame ctx) as SQ.
     apply bind_inv in H. destruct H as [(x & H & ->)|([] & s1 & H1 & H)].
-    { exists None, []. split; [|exact I]. apply step_rel_same.
-      revert H. apply (cf_raise_meta ctx X emit _ SQ). }
-    assert (Q1 : same_queues (m_i s) (m_i s1)).
-    { revert H1. apply (cf_raise_meta ctx X emit _ SQ). }
+    { exists None, []. split; [|exact I]. apply step_relM_same.
+      eapply raise_meta_sq; [intros ?; discriminate|exact H]. }
+    assert (Q1 : sq s s1) by (eapply raise_meta_sq; [intros ?; discriminate|exact H1]).
     apply bind_inv in H. destruct H as [(x & H & ->)|(steps & s2 & H2 & H)].
-    { exists None, []. split; [|exact I]. apply step_rel_same.
-      apply (cf_trans _ _ SQ _ _ _ Q1). revert H. apply (cf_compute_steps ctx X eval_code sc _ SQ). }
-    assert (Q2 : same_queues (m_i s1) (m_i s2)).
-    { revert H2. apply (cf_compute_steps ctx X eval_code sc _ SQ). }
-    assert (Q12 : same_queues (m_i s) (m_i s2)) by (apply (cf_trans _ _ SQ _ _ _ Q1 Q2)).
+    { exists None, []. split; [|exact I]. apply step_relM_same.
+      apply (mf_trans _ _ _ _ sq_frame _ _ _ Q1). eapply compute_steps_sq; eauto. }
+    assert (Q2 : sq s1 s2) by (eapply compute_steps_sq; eauto).
+    assert (Q12 : sq s s2) by (apply (mf_trans _ _ _ _ sq_frame _ _ _ Q1 Q2)).
     destruct (compute_steps_events _ _ _ H2) as (ev & Hev & Hsel).
     assert (Hsel2 : ev = None \/ ev = select_event (m_i s2)).
     { destruct Hsel as [Hn|[Hs _]]; [left; exact Hn|right]. rewrite Hs.
-      destruct Q2 as (A & B & C). unfold select_event. rewrite A, B, C. reflexivity. }
+      destruct Q2 as [(A & B & C) _]. unfold select_event. rewrite A, B, C. reflexivity. }
     assert (T2 : i_time (m_i s2) = i_time (m_i s)) by (apply Q12).
     apply bind_inv in H. destruct H as [(x & H & ->)|(macro & s3 & H3 & H)].
     { destruct (macro_part_spec _ _ _ _ _ _ Hev Hsel2 H) as (c & l & R & _).
-      exists c, l. split; [|exact I]. eapply step_rel_same_l; eauto. }
+      exists c, l. split; [|exact I]. eapply step_relM_l; eauto. }
     destruct (macro_part_spec _ _ _ _ _ _ Hev Hsel2 H3) as (c & l & R & Hr).
-    assert (Q3 : same_queues (m_i s3) (m_i s')).
-    { revert H. apply (cf_finish_part ctx X eval_code emit sc _ SQ). }
+    assert (Q3 : sq s3 s') by (eapply finish_part_sq; eauto).
     exists c, l. split.
-    { eapply step_rel_same_l; [exact Q12|]. eapply step_rel_same_r; eauto. }
+    { eapply step_relM_l; [exact Q12|]. eapply step_relM_r; eauto. }
     destruct r as [m|x]; [|exact I]. apply finish_part_result in H. subst m.
     unfold outcome_ok. destruct macro as [[t ex]|].
     - destruct Hr as (A & B & C & D). rewrite T2 in A. auto.
     - destruct Hr as (_ & B & C). auto.
+  Qed.
+
+  (* the structural part of C05_step does not need the invariant *)
+  Theorem C05_step_gen (fuel : nat) (now : Z) (s s' : mst) (r : option macrostep + err) :
+    execute_once fuel now s = (s', r) ->
+    exists (consumed : option entry) (sent : list event),
+      step_rel consumed sent (set_time now (m_i s)) (m_i s') /\
+      tr_rel (option_map snd consumed) s s' /\
+      outcome_ok now r consumed sent.
+  Proof.
+    intros H. rewrite execute_once_eq in H. apply bind_inv in H.
+    destruct H as [(x & H & _)|([] & s1 & H1 & H)]; [inversion H|].
+    inversion H1; subst s1. clear H1.
+    destruct (tail_spec _ _ _ _ _ H) as (c & l & [R T] & O). exists c, l.
+    split; [exact R|]. split; [exact T|exact O].
   Qed.
 
   (* THE MAIN THEOREM.  One call of execute_once(now), whatever its outcome r (a macro step, None,
@@ -656,6 +767,8 @@ Section C05.
        - (i)  removes at most one entry `consumed`, and it is the due head of the internal queue,
               else -- only if the internal head is not due -- the due head of the external queue
               (`pop`), i.e. exactly the event _select_event returns after the time update;
+              an entry is removed iff 'event consumed' is handed to the listeners, once, for that
+              very event (the trace grows by `new`, consumed_obs new = the consumed event);
        - (ii) then inserts (queue_insert, i.e. C05_insert) the INTERNAL events among `sent`, in
               sending order, each with due time  now + delay,  into the internal queue;
               the external queue is never inserted into;
@@ -672,38 +785,24 @@ Section C05.
       pop now (i_iq (m_i s)) (i_eq (m_i s)) consumed iq1 eq1 /\
       (consumed = None <-> iq1 = i_iq (m_i s) /\ eq1 = i_eq (m_i s)) /\
       (consumed <> None -> option_map snd consumed = select_event (set_time now (m_i s))) /\
+      (exists new, m_tr s' = new ++ m_tr s /\
+                   consumed_obs new = opt_list (option_map snd consumed)) /\
       (* (ii) *)
       i_iq (m_i s') = ins_all now (internals sent) iq1 /\
       i_eq (m_i s') = eq1 /\
       (* link with the result *)
       outcome_ok now r consumed sent.
   Proof.
-    intros QI H. rewrite execute_once_eq in H. apply bind_inv in H.
-    destruct H as [(x & H & _)|([] & s1 & H1 & H)]; [inversion H|].
-    inversion H1; subst s1. clear H1.
-    destruct (tail_spec _ _ _ _ _ H) as (c & l & R & O). simpl in R, O.
-    assert (QI1 : Q_inv (set_sent [] (set_time now (m_i s)))) by exact QI.
+    intros QI H. destruct (C05_step_gen _ _ _ _ _ H) as (c & l & R & T & O).
+    assert (QI1 : Q_inv (set_time now (m_i s))) by exact QI.
     split; [exact (step_rel_Q_inv _ _ _ _ QI1 R)|].
     destruct R as (iq1 & eq1 & P & E1 & E2 & E3). simpl in P, E1, E2, E3.
     split; [exact E3|]. exists c, l, iq1, eq1.
     split; [exact P|]. split; [exact (pop_none_iff _ _ _ _ _ _ P)|].
-    split; [exact (pop_select _ _ _ _ _ P)|]. auto.
-  Qed.
-
-  (* the structural part of C05_step does not need the invariant *)
-  Theorem C05_step_gen (fuel : nat) (now : Z) (s s' : mst) (r : option macrostep + err) :
-    execute_once fuel now s = (s', r) ->
-    exists (consumed : option entry) (sent : list event),
-      step_rel consumed sent (set_time now (m_i s)) (m_i s') /\ outcome_ok now r consumed sent.
-  Proof.
-    intros H. rewrite execute_once_eq in H. apply bind_inv in H.
-    destruct H as [(x & H & _)|([] & s1 & H1 & H)]; [inversion H|].
-    inversion H1; subst s1. clear H1.
-    destruct (tail_spec _ _ _ _ _ H) as (c & l & R & O). exists c, l. split; [exact R|exact O].
+    split; [exact (pop_select _ _ _ _ _ P)|]. split; [exact T|]. auto.
   Qed.
 
   (* ================================================================ C05_conservation *)
-  Definition opt_list {A} (o : option A) : list A := match o with Some a => [a] | None => [] end.
   Definition stamp (now : Z) (e : event) : entry := ((now + delay_of e)%Z, e).
 
   Lemma ins_all_perm now l (q : list entry) : Permutation (ins_all now l q) (q ++ map (stamp now) l).
